@@ -660,6 +660,39 @@ func c15SubscribeCancelCase(h *hctx, id int) {
 			}
 		}
 	}
+	// a publish blocked on the (full) targets of the remaining subscriptions returns once the functions returned by
+	// SubscribeCancel have been called: they cancel the very context the subscription was registered with
+	{
+		n.Publish("k", 3) // fills every remaining target's buffer
+		blocked := make(chan struct{})
+		go func() { defer close(blocked); n.Publish("k", 4) }()
+		parked := quiesce(c15Gap, 3*time.Second)
+		stillBlocked := false
+		select {
+		case <-blocked:
+		default:
+			stillBlocked = true
+		}
+		if m > 1 && parked && !stillBlocked {
+			h.line("MONITOR C15 a publish to full targets returned before anybody received or cancelled (case %d)", id)
+		}
+		for _, c := range cancels {
+			c()
+		}
+		select {
+		case <-blocked:
+			h.count("subscribecancel_blocked_publish_released", boolInt(stillBlocked))
+		case <-time.After(3 * time.Second):
+			h.line("MONITOR C15 a publish blocked on SubscribeCancel subscriptions did not return within 3 s of their cancel functions being called (case %d)", id)
+			return
+		}
+		for _, t := range targets {
+			select {
+			case <-t:
+			default:
+			}
+		}
+	}
 	for _, c := range cancels {
 		c()
 	}
